@@ -30,7 +30,7 @@ func init() {
 		},
 		Run: func(c *Ctx, idx int) { runQuota(c, idx, false) },
 		Required: []string{"epochs", "epochs.plain_quota_checked", "epochs.delta_coding", "epochs.stolen", "epochs.makeup", "species.zero_quota",
-			"species.stagnation_penalty", "species.youth_boost", "pools.checked", "epochs.parallel"},
+			"species.stagnation_penalty", "species.youth_boost", "pools.checked", "pools.unchanged_at_reproduction", "epochs.parallel"},
 	})
 	register(&Prop{
 		ID: "C10", Level: "exploration", DesignRef: "DESIGN.md section 4 C10",
@@ -114,6 +114,7 @@ type quotaMonitor struct {
 	babies    map[*genetics.Species]int
 	champs    []*champSnap
 	delta     bool
+	pools     map[*genetics.Species]map[*genetics.Organism]bool
 }
 
 func (m *quotaMonitor) detail() map[string]interface{} {
@@ -138,6 +139,27 @@ func (m *quotaMonitor) Constructed(c *Ctx, sc *EvoScenario, pop *genetics.Popula
 		m.babies[s] += len(babies)
 		m.mu.Unlock()
 	}
+	genetics.VerifHooks.ReproduceStart = func(s *genetics.Species, p *genetics.Population, generation int) {
+		// the parents a species draws from are the pool that was cut when the epoch was prepared - nothing joins or leaves
+		// it before the species reproduces
+		m.mu.Lock()
+		defer m.mu.Unlock()
+		pool, ok := m.pools[s]
+		if !ok || m.stop || m.champions {
+			return
+		}
+		same := len(pool) == len(s.Organisms)
+		for _, og := range s.Organisms {
+			same = same && pool[og]
+		}
+		if !same {
+			m.stop = true
+			d := m.detail()
+			d["species"] = s.Id
+			c.Violate("parent-pool-changed", d, "species %d starts to reproduce with %d organisms to draw parents from, its parent pool had %d when the epoch was prepared", s.Id, len(s.Organisms), len(pool))
+		}
+		c.Count("pools.unchanged_at_reproduction", 1)
+	}
 }
 
 func (m *quotaMonitor) BeforeEpoch(c *Ctx, sc *EvoScenario, gen int, pop *genetics.Population) {
@@ -151,6 +173,9 @@ func (m *quotaMonitor) BeforeEpoch(c *Ctx, sc *EvoScenario, gen int, pop *geneti
 	m.quotas = map[*genetics.Species]int{}
 	m.champs = nil
 	m.delta = false
+	m.mu.Lock()
+	m.pools = map[*genetics.Species]map[*genetics.Organism]bool{}
+	m.mu.Unlock()
 	for _, s := range pop.Species {
 		p := &quotaSpeciesPre{sp: s, age: s.Age, lastImp: s.AgeOfLastImprovement}
 		for _, o := range s.Organisms {
@@ -381,6 +406,13 @@ func (m *quotaMonitor) onPrepared(c *Ctx, p *genetics.Population, sorted []*gene
 			return
 		}
 		c.Count("pools.checked", 1)
+		pool := map[*genetics.Organism]bool{}
+		for _, og := range s.Organisms {
+			pool[og] = true
+		}
+		m.mu.Lock()
+		m.pools[s] = pool
+		m.mu.Unlock()
 		inPool := map[*genetics.Organism]bool{}
 		minPool := math.Inf(1)
 		for _, og := range s.Organisms {
